@@ -137,8 +137,21 @@ def fn_expect(items):
                         viol.append(V('C07/poly/py/argument-modified', item, 'expect changed its polynomial argument'))
                 else:
                     poly = lib.tPOLY(gsP, psP, csP)
+                    rel = [('-p', -poly, -1.0), ('2j*p', 2j * poly, 2j), ('p[0:]', poly[0:], 1.0)]     # relatives made BEFORE the evaluation (they share tensors with p by design)
                     v = st.expect(poly)
                     v = complex(v.item() if hasattr(v, 'item') else v)
+                    if not (np.array_equal(lib.t2n(poly.gs), gsP) and np.array_equal(lib.t2n(poly.ps) % 4, psP % 4) and np.allclose(poly.cs.detach().numpy(), csP, atol=1e-6)):
+                        viol.append(V('C07/poly/torch/argument-modified', item, 'torch expect changed its polynomial argument'))
+                    for rn, robj, fac in rel:
+                        try:
+                            rv = st.expect(robj)
+                            rv = complex(rv.item() if hasattr(rv, 'item') else rv)
+                        except Exception:
+                            continue
+                        n += 1
+                        if abs(rv - fac * w) > 1e-4:
+                            viol.append(V('C07/poly/torch/relative-after-evaluation', item, 'torch: expect(%s) = %s after expect(p) had been evaluated, true %s (the relative was made before the evaluation)' % (rn, rv, fac * w)))
+                            break
                 n += 1
                 nt += 1
                 if abs(v - w) > 1e-5:
